@@ -162,6 +162,41 @@ func TestC13Keepalive(t *testing.T) {
 			synctest.Test(t, func(t *testing.T) { run = gbnrun.Execute(cfg) })
 			ts.add("all", run.Rec.Events(), desc, true, nil)
 		}
+		// a live idle peer behind a stream whose writes return late: the
+		// answer to a ping can arrive before the write of the ping has
+		// returned; nobody may close
+		for _, lagPct := range []int{10, 60} {
+			idx++
+			s, lagPct := s, lagPct
+			lat := 10 * time.Millisecond
+			lag := time.Duration(int64(minDur(s.qc, s.qs)) * int64(lagPct) / 100)
+			desc := map[string]any{"kind": "alive-slow-write", "setting": si, "lagMs": ms(lag), "i": idx}
+			noteCurrent(dir, desc)
+			cfg := gbnrun.Config{
+				N: 2, Static: 2*lag + time.Second, Latency: lat,
+				Ping: [2]time.Duration{s.pc, s.ps}, Pong: [2]time.Duration{s.qc, s.qs},
+				Msgs: [2]int{lagPct / 60, 0}, Horizon: 5 * time.Hour, RecvForever: true,
+				CloseScript: func(r *gbnrun.Run) {},
+				Extra:       []gbn.TimeoutOptions{gbn.WithHandshakeTimeout(2*lag + time.Second)},
+			}
+			dur := 300 * time.Second
+			if thorough {
+				dur = 3000 * time.Second
+			}
+			cfg.OnReady = func(r *gbnrun.Run) {
+				r.Net.SetSendLag("c", lag)
+				r.Net.SetSendLag("s", lag)
+				r.Rec.Emit("kaCfg", "pingC", ms(s.pc), "pongC", ms(s.qc), "pingS", ms(s.ps), "pongS", ms(s.qs))
+				time.Sleep(dur)
+				synctest.Wait()
+				r.Rec.Emit("kaEnd", "rtC", rtMs(r.Client), "rtS", rtMs(r.Server))
+				r.Close("c", "z")
+				r.Close("s", "z")
+			}
+			var run *gbnrun.Run
+			synctest.Test(t, func(t *testing.T) { run = gbnrun.Execute(cfg) })
+			ts.add("all", run.Rec.Events(), desc, true, nil)
+		}
 	}
 	ts.close(nil)
 }
